@@ -1672,6 +1672,9 @@ package log
 //@   ensures[C02:list-grows-in-place-or-into-a-new-array] sref(tags) == old(sref(tags)) || fresh(sref(tags))
 
 // ---- C15: from the configuration map to the storage: every key is stored under its camelCase spelling ----------
+// (with its value -- except that a key which an earlier entry of the same camelCase spelling set to an
+// empty-container marker "[]", "{}", "<nil>" keeps showing the marker: flatten.Storage's combined view
+// prefers its marker map; only configurations that spell one key twice can get there)
 // ("name!" entries are expanded: the keys of the parsed expression, camel-cased, below the camel-cased name)
 //@ spec fun inlineKey(k string) bool = has_suffix(toCamelKey(k), "!")
 //@ spec fun inlineBase(k string) string = toCamelKey(k)[:len(toCamelKey(k))-1]
@@ -1683,7 +1686,7 @@ package log
 //@   modifies foreign
 //@   ensures[C15:storage-or-error] (result1 != nil ==> result0 == nil) && (result1 == nil ==> result0 != nil)
 //@   loop 1 invariant[C15:storage] s != nil
-//@   loop 1 iteration[C15:flat-key-stored-under-its-camel-spelling] !inlineKey($key) ==> stHas[s][toCamelKey($key)] && stVal[s][toCamelKey($key)] == $val
+//@   loop 1 iteration[C15:flat-key-stored-under-its-camel-spelling] !inlineKey($key) ==> stHas[s][toCamelKey($key)] && (stVal[s][toCamelKey($key)] == $val || emptyMarker(stVal[s][toCamelKey($key)]))
 //@   loop 1 iteration[C15:inline-keys-stored-below-the-camel-cased-name] inlineKey($key) ==> (forall k2 string :: subMap != nil && has(subMap, k2) ==> stHas[s][inlineBase($key) + "." + toCamelKey(k2)])
 //@   loop 2 invariant[C15:storage] s != nil && inlineKey($key1)
 //@   loop 2 invariant[C15:inline-keys-so-far] forall k2 string :: $visited[k2] ==> stHas[s][inlineBase($key1) + "." + toCamelKey(k2)]
@@ -1975,7 +1978,7 @@ package log
 //@   modifies freevar(0), index, freevar(4), stHas[s], stVal[s], stNode[s]
 //@   nopanic[C15]
 //@   ensures[C15:blank-entries-are-skipped] tc == "" ==> result && index == old(index) && freevar(4) == old(freevar(4))
-//@   ensures[C15:entry-becomes-the-next-element] tc != "" && result ==> index == old(index) + 1 && stNode[s][elemKey + "[" + itoa(old(index)) + "]"] && stHas[s][elemKey + "[" + itoa(old(index)) + "].type"] && stVal[s][elemKey + "[" + itoa(old(index)) + "].type"] == tc
+//@   ensures[C15:entry-becomes-the-next-element] tc != "" && result ==> index == old(index) + 1 && stNode[s][elemKey + "[" + itoa(old(index)) + "]"] && stHas[s][elemKey + "[" + itoa(old(index)) + "].type"] && (stVal[s][elemKey + "[" + itoa(old(index)) + "].type"] == tc || emptyMarker(stVal[s][elemKey + "[" + itoa(old(index)) + "].type"]))
 //@   ensures[C15:a-failing-store-ends-the-loop-with-the-error] tc != "" && !result ==> freevar(0) == 1 && freevar(4) != nil && index == old(index)
 //@   ensures[C15:loop-goes-on-iff-no-error] result == (freevar(0) == 0)
 //@   ensures[C15:storage-only-grows] (forall k string :: old(stNode[s][k]) ==> stNode[s][k]) && (forall k string :: old(stHas[s][k]) ==> stHas[s][k])
